@@ -20,7 +20,9 @@ alphabets, wider alphabets and triples inside the groups) is executed:
 * ``file``   the file-based route (``writeToYamlFile`` / ``Settings(fName)`` / medium style re-write);
 * ``chars``  every code point U+0001..U+017F (+ separators, BOM, non-characters, astral) in four contexts
              through one text-typed and one list-typed setting (short style);
-* ``renamer`` the rename rules (active, expired, current name wins) on synthetic settings.
+* ``renamer`` / ``collision`` the rename rules on synthetic settings: every list of 1-3 old names over
+             {no expiry, expired, expiring today, future} in every order x which name(s) a document uses,
+             judged per old name; two settings sharing an old name.
 
 A *case* is pure JSON; ``evaluate(case)`` re-executes it from nothing.
 """
@@ -667,45 +669,145 @@ def _eval_file(case):
 
 
 # ---------------------------------------------------------------------------------------------
-# case kind: renamer (rules of SettingRenamer on synthetic settings)
+# case kind: renamer / collision (rename rules on synthetic settings)
+#
+# Reference rule, applied to each old name on its own (its neighbours in the list do not matter):
+# an old name renames to the setting's current name iff it has no expiry date or the date lies in the
+# future; an expired one (date today or earlier) is left alone and then is an unknown name; a name that
+# is a current setting name is never renamed; the same old name *active* in two settings is refused.
+
+RENAME_KINDS = ("none", "past", "today", "future")
+
+
+def _expiry(kind, age):
+    import datetime
+
+    today = datetime.date.today()
+    return {"none": None, "past": today - datetime.timedelta(days=age), "today": today, "future": today + datetime.timedelta(days=age)}[kind]
+
+
+def _active(kind):
+    return kind in ("none", "future")
 
 
 def _eval_renamer(case):
-    import datetime
-
     from armi.settings import setting, settingsIO
 
     V = _V(case)
-    today = datetime.date.today()
-    past = today - datetime.timedelta(days=case["age"])
-    future = today + datetime.timedelta(days=case["age"])
+    rules, age = case["rules"], case["age"]
+    olds = ["synOld%d" % i for i in range(len(rules))]
+    sig = ",".join(rules)
+
+    def mk():
+        return setting.Setting("synNew", default=1, description="synthetic renamed setting", oldNames=[(o, _expiry(k, age)) for o, k in zip(olds, rules)])
+
     defs = {
-        "alpha": setting.Setting("alpha", default=1, description="d", oldNames=[("oldAlpha", None), ("agedAlpha", past), ("soonAlpha", future)]),
-        "beta": setting.Setting("beta", default=1, description="d", oldNames=[("alpha", None), ("oldBeta", None)]),
+        "synNew": mk(),
+        # synNew is also somebody's old name: a current name is never renamed
+        "synOther": setting.Setting("synOther", default=1, description="d", oldNames=[("synNew", None), ("synOtherOld", None)]),
     }
-    r = settingsIO.SettingRenamer(defs)
-    want = {
-        "alpha": ("alpha", False),  # a current name is never renamed, even if it is somebody's old name
-        "beta": ("beta", False),
-        "oldAlpha": ("alpha", True),
-        "soonAlpha": ("alpha", True),  # not yet expired
-        "agedAlpha": ("agedAlpha", False),  # expired: not renamed
-        "oldBeta": ("beta", True),
-        "unknown": ("unknown", False),
-    }
-    for k, w in want.items():
-        V.n("docs")
-        got = tuple(r.renameSetting(k))
-        if got != w:
-            V.bad("renamer-rule:" + k, "SettingRenamer.renameSetting(%r) = %s, expected %s" % (k, got, w))
     try:
-        settingsIO.SettingRenamer({
-            "a": setting.Setting("a", default=1, description="d", oldNames=[("x", None)]),
-            "b": setting.Setting("b", default=1, description="d", oldNames=[("x", None)]),
-        })
-        V.bad("renamer-rule:collision", "two settings claiming the same old name are not refused")
+        r = settingsIO.SettingRenamer(defs)
+    except Exception as e:
+        V.bad("renamer-refuses-rules", "SettingRenamer with oldNames kinds [%s] raised %s: %s" % (sig, type(e).__name__, str(e)[:120]))
+        return V
+    want = {"synNew": ("synNew", False), "synOther": ("synOther", False), "synOtherOld": ("synOther", True), "unknownName": ("unknownName", False)}
+    for o, k in zip(olds, rules):
+        want[o] = ("synNew", True) if _active(k) else (o, False)
+    for name, w in want.items():
+        V.n("docs")
+        got = tuple(r.renameSetting(name))
+        if got != w:
+            if name in olds:
+                k = rules[olds.index(name)]
+                key = "renamer-rule:active-old-name-not-renamed" if _active(k) else "renamer-rule:expired-old-name-renamed"
+                V.bad(key, "oldNames kinds [%s] (age %d d): renameSetting(%r) [%s] = %s, expected %s" % (sig, age, name, k, got, w))
+            else:
+                V.bad("renamer-rule:" + name, "oldNames kinds [%s]: renameSetting(%r) = %s, expected %s" % (sig, name, got, w))
+    # the same rules through the reader: a Settings object carrying the synthetic setting
+    cs = _new().modified(newSettings={"synNew": mk()})
+    base = _snap(cs)
+    docs = [[(n, 5)] for n in olds + ["synNew"]]
+    for a, b in itertools.permutations(olds + ["synNew"], 2):
+        docs.append([(a, 5), (b, 7)])
+    kind_of = dict(zip(olds, rules))
+    for entries in docs:
+        cs["synNew"] = 1
+        text = "settings:\n" + "".join("  %s: %d\n" % (n, x) for n, x in entries)
+        V.n("docs")
+        exp, exp_invalid = 1, set()
+        for n, x in entries:  # entries are applied in document order, each by its own rule
+            if n == "synNew" or _active(kind_of[n]):
+                exp = x
+            else:
+                exp_invalid.add(n)
+        try:
+            _, reader = _load(text, into=cs)
+        except Exception as e:
+            V.bad("reader-rename:raises", "oldNames kinds [%s]: document %r raised %s: %s" % (sig, text, type(e).__name__, str(e)[:120]))
+            continue
+        got = dict(cs.items())["synNew"].value
+        if got != exp:
+            if exp == 1:
+                key = "reader-rename:expired-old-name-applied"
+            elif got == 1:
+                key = "reader-rename:active-old-name-ignored"
+            else:
+                key = "reader-rename:wrong-value"
+            V.bad(key, "oldNames kinds [%s] (age %d d): document %r leaves synNew = %r, expected %r (invalid reported: %s)" % (sig, age, text, got, exp, sorted(reader.invalidSettings)))
+        elif set(reader.invalidSettings) != exp_invalid:
+            V.bad("reader-rename:invalid-names-reported", "oldNames kinds [%s]: document %r reports invalid %s, expected %s" % (sig, text, sorted(reader.invalidSettings), sorted(exp_invalid)))
+        d = _diff(base, _snap(cs), skip=("synNew",))
+        if d:
+            V.bad("reader-rename:changed-other-setting", "document %r changed %s" % (text, d))
+    V.n("nontrivial")
+    return V
+
+
+def _eval_collision(case):
+    """Two settings listing the same old name: refused iff the name is active in both."""
+    from armi.settings import setting, settingsIO
+
+    V = _V(case)
+    ka, kb, age = case["a"], case["b"], case["age"]
+
+    def mk(name, kind, extra):
+        olds = [("shared", _expiry(kind, age))]
+        olds = extra + olds if case.get("shared_last") else olds + extra
+        return setting.Setting(name, default=1, description="d", oldNames=olds)
+
+    defs = {"synA": mk("synA", ka, [("onlyA", None)]), "synB": mk("synB", kb, [("onlyB", None)])}
+    want_refused = _active(ka) and _active(kb)
+    V.n("docs")
+    try:
+        r = settingsIO.SettingRenamer(defs)
+        refused = False
+    except Exception as e:
+        refused, err = True, "%s: %s" % (type(e).__name__, str(e)[:100])
+    if want_refused and not refused:
+        V.bad("renamer-rule:collision-not-refused", "old name 'shared' active [%s] in synA and active [%s] in synB: not refused" % (ka, kb))
+    elif refused and not want_refused:
+        V.bad("renamer-rule:collision-refused-wrongly", "old name 'shared' is %s in synA and %s in synB (not active in both) but SettingRenamer raised %s" % (ka, kb, err))
+    elif not refused:
+        w = ("synA", True) if _active(ka) else (("synB", True) if _active(kb) else ("shared", False))
+        got = tuple(r.renameSetting("shared"))
+        if got != w:
+            V.bad("renamer-rule:active-old-name-not-renamed" if w[1] else "renamer-rule:expired-old-name-renamed", "'shared' is %s in synA, %s in synB: renameSetting('shared') = %s, expected %s" % (ka, kb, got, w))
+        for o, n in (("onlyA", "synA"), ("onlyB", "synB")):
+            got = tuple(r.renameSetting(o))
+            if got != (n, True):
+                V.bad("renamer-rule:active-old-name-not-renamed", "'shared' is %s in synA, %s in synB: renameSetting(%r) = %s, expected %s" % (ka, kb, o, got, (n, True)))
+    # the reader is built from the same table
+    cs = _new().modified(newSettings=dict(defs))
+    try:
+        _load("settings:\n  onlyA: 5\n  onlyB: 7\n", into=cs)
+        rd = False
     except Exception:
-        pass
+        rd = True
+    if rd != want_refused:
+        V.bad("reader-rename:collision", "'shared' is %s in synA, %s in synB: reading a document %s" % (ka, kb, "raised" if rd else "did not raise"))
+    elif not rd and (dict(cs.items())["synA"].value, dict(cs.items())["synB"].value) != (5, 7):
+        V.bad("reader-rename:active-old-name-ignored", "'shared' is %s in synA, %s in synB: onlyA/onlyB not applied" % (ka, kb))
     V.n("nontrivial")
     return V
 
@@ -737,7 +839,7 @@ def _eval_chars(case):
     return V
 
 
-_EVAL = {"chars": _eval_chars, "dev": _eval_dev, "doc": _eval_doc, "rename": _eval_rename, "copy": _eval_copy, "file": _eval_file, "renamer": _eval_renamer}
+_EVAL = {"chars": _eval_chars, "dev": _eval_dev, "doc": _eval_doc, "rename": _eval_rename, "copy": _eval_copy, "file": _eval_file, "renamer": _eval_renamer, "collision": _eval_collision}
 
 
 def evaluate(case):
@@ -850,13 +952,20 @@ def build_cases(ctx):
                     cases.append({"kind": "rename", "old": old, "new": n, "val": R.enc(v), "pre": R.enc(good[-1])})
                 cases.append({"kind": "rename", "old": old, "new": n, "val": R.enc(v), "with": ["comment", "next to a renamed entry"]})
     info["rename_pairs"] = nren
+    # rename rules on synthetic settings: every list of 1-3 old names over {no expiry, past, today, future}
+    # in every order x two ages; two settings sharing an old name, every combination of kinds
     for age in (1, 400):
-        cases.append({"kind": "renamer", "age": age})
+        for n in (1, 2, 3):
+            for rules in itertools.product(RENAME_KINDS, repeat=n):
+                cases.append({"kind": "renamer", "rules": list(rules), "age": age})
+        for ka, kb in itertools.product(RENAME_KINDS, repeat=2):
+            for last in (False, True):
+                cases.append({"kind": "collision", "a": ka, "b": kb, "age": age, "shared_last": last})
     # copies
     routes = ["modified", "modified-title", "modified-setting", "duplicate", "deepcopy", "pickle"]
     for n in names:
         good, bad, _ = cls[n]
-        for v1 in good[: B["copy_vals"]] + bad[:1]:
+        for v1 in good[: B["copy_vals"]] + bad[:2]:
             for how in routes:
                 cases.append({"kind": "copy", "name": n, "how": how, "v1": R.enc(v1)})
                 if len(good) > 1 and how in ("modified", "duplicate"):
